@@ -48,9 +48,9 @@ def main():
             f.write(f"{p} {n}\n")
     extra = [] if "--suite" in sys.argv else ["--nosuite"]
     if kind == "refs":
-        cmd = ["python3", f"{V}/tools/batch.py", "ref", lst, "-P", P, "--live"] + extra
+        cmd = ["python3", f"{V}/tools/batch.py", "ref", lst, "-P", P] + ([] if os.environ.get("VERIF_SNAP") else ["--live"]) + extra
     else:
-        cmd = ["python3", f"{V}/tools/batch.py", "seed", lst, "-P", P, "--from-seeded"] + extra
+        cmd = ["python3", f"{V}/tools/batch.py", "seed", lst, "-P", P, "--from-seeded"] + (["--snap"] if os.environ.get("VERIF_SNAP") else []) + extra
     print(" ".join(cmd), flush=True)
     subprocess.run(cmd)
     for p in props:
